@@ -349,6 +349,15 @@ class Run:
         elif kind == "sendjunk":
             val, err = self._await(gw.send(ev["obj"]))
             out = self._outcome(val, err, yielded=False)
+        elif kind == "cycle":
+            async def cycle():
+                async with gw:
+                    pass
+            if self.gen is not None:
+                self._await(self.gen.aclose())
+                self.gen = None
+            val, err = self._await(cycle())
+            out = self._outcome(val, err, yielded=False)
         elif kind == "reboot":
             if ev["n"] in gw.nodes:
                 gw.nodes[ev["n"]].reboot = True
